@@ -8,6 +8,7 @@ import (
 	"testing"
 
 	"github.com/icon-project/goloop/common"
+	"github.com/icon-project/goloop/common/codec"
 	"github.com/icon-project/goloop/common/intconv"
 	"pgregory.net/rapid"
 
@@ -330,6 +331,95 @@ func c24Case(rt c24F, rec *ev.Rec, v *big.Int, shape string) {
 	}
 	if fitsU {
 		c24CheckUint64(rt, v.Uint64())
+	}
+	c24CheckCodec(rt, v, fitsI, fitsU)
+}
+
+// c24RLPString is the RLP rendering of a byte string (independent of goloop's writer).
+func c24RLPString(b []byte) []byte {
+	switch {
+	case len(b) == 1 && b[0] < 0x80:
+		return []byte{b[0]}
+	case len(b) < 56:
+		return append([]byte{0x80 + byte(len(b))}, b...)
+	default:
+		l := c24RefUnsigned(big.NewInt(int64(len(b))))
+		return append(append([]byte{0xb7 + byte(len(l))}, l...), b...)
+	}
+}
+
+// c24CheckCodec: the Hex* number types as they travel in blocks, transactions and the state (self-encoding through
+// goloop's RLP and MsgPack codecs): the RLP payload is the minimal two's-complement byte string and both codecs
+// give the number back into a receiver that held something else.
+func c24CheckCodec(rt c24F, v *big.Int, fitsI, fitsU bool) {
+	want := c24RLPString(c24RefSigned(v))
+	type pair struct {
+		name    string
+		in, out interface{}
+		get     func() *big.Int
+	}
+	build := func() []pair {
+		var ps []pair
+		{
+			var in, out common.HexInt
+			in.Set(v)
+			out.SetInt64(-77)
+			ps = append(ps, pair{"HexInt", &in, &out, func() *big.Int { return &out.Int }})
+		}
+		if fitsI {
+			i := v.Int64()
+			o64 := &common.HexInt64{Value: 99}
+			ps = append(ps, pair{"HexInt64", &common.HexInt64{Value: i}, o64, func() *big.Int { return big.NewInt(o64.Value) }})
+			if int64(int32(i)) == i {
+				o := &common.HexInt32{Value: 99}
+				ps = append(ps, pair{"HexInt32", &common.HexInt32{Value: int32(i)}, o, func() *big.Int { return big.NewInt(int64(o.Value)) }})
+			}
+			if int64(int16(i)) == i {
+				o := &common.HexInt16{Value: 99}
+				ps = append(ps, pair{"HexInt16", &common.HexInt16{Value: int16(i)}, o, func() *big.Int { return big.NewInt(int64(o.Value)) }})
+			}
+		}
+		if fitsU {
+			u := v.Uint64()
+			o64 := &common.HexUint64{Value: 99}
+			ps = append(ps, pair{"HexUint64", &common.HexUint64{Value: u}, o64, func() *big.Int { return new(big.Int).SetUint64(o64.Value) }})
+			if uint64(uint32(u)) == u {
+				o := &common.HexUint32{Value: 99}
+				ps = append(ps, pair{"HexUint32", &common.HexUint32{Value: uint32(u)}, o, func() *big.Int { return big.NewInt(int64(o.Value)) }})
+			}
+			if uint64(uint16(u)) == u {
+				o := &common.HexUint16{Value: 99}
+				ps = append(ps, pair{"HexUint16", &common.HexUint16{Value: uint16(u)}, o, func() *big.Int { return big.NewInt(int64(o.Value)) }})
+			}
+		}
+		return ps
+	}
+	for _, p := range build() {
+		bs, err := codec.BC.MarshalToBytes(p.in)
+		if err != nil {
+			rt.Fatalf("C24 violated: RLP encoding of %s(%v) failed: %v", p.name, v, err)
+		}
+		if !bytes.Equal(bs, want) {
+			rt.Fatalf("C24 violated: RLP encoding of %s(%v) is %x, the minimal two's-complement string in RLP is %x", p.name, v, bs, want)
+		}
+		if rest, err := codec.BC.UnmarshalFromBytes(bs, p.out); err != nil || len(rest) != 0 {
+			rt.Fatalf("C24 violated: RLP decoding of %s(%v)=%x failed: %v (rest %x)", p.name, v, bs, err, rest)
+		}
+		if got := p.get(); got.Cmp(v) != 0 {
+			rt.Fatalf("C24 violated: %s(%v) reads back from RLP %x as %v", p.name, v, bs, got)
+		}
+	}
+	for _, p := range build() {
+		ms, err := codec.MP.MarshalToBytes(p.in)
+		if err != nil {
+			rt.Fatalf("C24 violated: MsgPack encoding of %s(%v) failed: %v", p.name, v, err)
+		}
+		if _, err := codec.MP.UnmarshalFromBytes(ms, p.out); err != nil {
+			rt.Fatalf("C24 violated: MsgPack decoding of %s(%v)=%x failed: %v", p.name, v, ms, err)
+		}
+		if got := p.get(); got.Cmp(v) != 0 {
+			rt.Fatalf("C24 violated: %s(%v) reads back from MsgPack %x as %v", p.name, v, ms, got)
+		}
 	}
 }
 
